@@ -139,6 +139,11 @@ func (h *harness) oracle(after string, level int) {
 			}
 		}
 	}
+	// (3b) what the pool tells its readers (Content: RPC; TxPoolPending: the miner) comes from each list's sorted-read cache:
+	// where that cache is populated it must hold exactly the list's transactions
+	for _, d := range v.StaleCaches {
+		bad("reader-view", "the sorted-read cache of "+d)
+	}
 	// (1a) pending lists have no nonce gap
 	for ai, a := range addrs {
 		l := v.Pending[a]
